@@ -451,6 +451,23 @@ func init() {
 		}
 	}
 	docFamilies = append(docFamilies,
+		// failing documents: an error raised at the bottom of a deep nest travels up through every level
+		// (seeded change C20r4-m1 wrapped it with fmt.Errorf at each level: quadratic in depth)
+		docFamily{"deep-objects-failing-at-the-bottom", func(n int) []byte { return []byte(strings.Repeat(`{"k":`, n) + "x") }, deep},
+		docFamily{"deep-arrays-failing-at-the-bottom", func(n int) []byte { return []byte(strings.Repeat("[", n) + "x") }, deep},
+		docFamily{"deep-mixed-failing-at-the-bottom", func(n int) []byte { return []byte(strings.Repeat(`[{"a":`, n/2) + `"unterminated`) }, deep},
+		docFamily{"deep-arrays-closed-wrongly", func(n int) []byte { return []byte(strings.Repeat("[", n) + strings.Repeat("]", n/2) + "}") }, deep},
+		// a long string first, deep nesting afterwards (seeded change C20r4-m2 sized every new child
+		// reader's scratch like its parent's: S x d)
+		docFamily{"long-string-then-deep-arrays", func(n int) []byte {
+			return []byte(`["` + strings.Repeat("s", 8*n) + `",` + strings.Repeat("[", n) + "1" + strings.Repeat("]", n) + "]")
+		}, deep},
+		docFamily{"long-escaped-string-then-deep-objects", func(n int) []byte {
+			return []byte(`{"s":"` + strings.Repeat(`ab\n`, 2*n) + `","d":` + strings.Repeat(`{"a":`, n) + "1" + strings.Repeat("}", n) + "}")
+		}, deep},
+		docFamily{"long-escaped-key-then-deep-arrays", func(n int) []byte {
+			return []byte(`{"` + strings.Repeat(`k\t`, 3*n) + `":0,"d":` + strings.Repeat("[", n) + "1" + strings.Repeat("]", n) + "}")
+		}, deep},
 		docFamily{"array[ object{x: wide-object}, {} x n ]", func(n int) []byte {
 			return []byte(`[{"x":` + keysObj(n, "") + "}" + strings.Repeat(",{}", n) + "]")
 		}, wide},
